@@ -35,7 +35,7 @@ struct Run {
     std::string err;
     bool clamped{false};
     bool ex_replace{false}, ex_rfind{false};
-    bool nt_middle{false}, nt_clamp{false}, nt_edge{false}, nt_empty{false}, nt_full{false}, nt_nul{false}, nt_hit{false};
+    bool nt_middle{false}, nt_clamp{false}, nt_edge{false}, nt_empty{false}, nt_full{false}, nt_nul{false}, nt_hit{false}, nt_alias{false}, nt_extreme{false}, nt_big{false};
 
     // ------------------------------------------------------------------ the invariant the property promises after EVERY op
     static auto inv(char const* name, E const& e) -> std::string
@@ -146,6 +146,7 @@ struct Run {
     auto do_construct(std::uint32_t code) -> void;
     auto do_modify(std::uint32_t code) -> void;
     auto do_query(std::uint32_t code) -> void;
+    auto do_extra(std::uint32_t code) -> void;
 
     auto run(OpsCase const& k, int stats) -> std::string
     {
@@ -172,8 +173,10 @@ struct Run {
                 do_construct(code);
             } else if (code < FIND_STR) {
                 do_modify(code);
-            } else {
+            } else if (code < ALIAS_ASSIGN_PTR_N) {
                 do_query(code);
+            } else {
+                do_extra(code);
             }
             if (err.empty() && clamped) {
                 err = inv(tb ? "B (after a clamping append)" : "A (after a clamping append)", *x);
@@ -184,6 +187,8 @@ struct Run {
             if (err.empty() && (sw.pre != 0xA5A5A5A5A5A5A5A5ULL || sw.mid != 0x5A5A5A5A5A5A5A5AULL || sw.post != 0xC3C3C3C3C3C3C3C3ULL)) { err = "canary next to the string was overwritten"; }
             nt_full |= (mx->size() == N);
             nt_nul |= (mx->find(Char(0)) != M::npos);
+            nt_big |= (N >= 255 && mx->size() >= 254);
+            for (auto c : *mx) { nt_extreme |= is_extreme(c); }
             if (!err.empty()) { break; }
         }
         if (!err.empty()) { err = std::string("after ") + code_names[last_code] + ": " + err; }
@@ -195,10 +200,13 @@ struct Run {
             vf::label("hist.reached_full", nt_full);
             vf::label("hist.embedded_nul", nt_nul);
             vf::label("hist.search_hit", nt_hit);
+            vf::label("hist.self_referential_argument", nt_alias);
+            vf::label("hist.extreme_code_unit_in_string", nt_extreme);
+            if (N >= 255) { vf::label("hist.capacity_255_256_reached_size_254_or_more", nt_big); }
         }
         return err;
     }
-    [[nodiscard]] auto nontrivial() const -> bool { return nt_middle || nt_clamp || nt_edge || nt_empty; }
+    [[nodiscard]] auto nontrivial() const -> bool { return nt_middle || nt_clamp || nt_edge || nt_empty || nt_alias; }
 };
 
 } // namespace c04
